@@ -60,13 +60,13 @@ class Outcome:
 
 
 class Ctx:
-    def __init__(self, prop, tier, seed, widen=1):
+    def __init__(self, prop, tier, seed, widen=1, scratch=None):
         self.prop = prop
         self.tier = tier
         self.seed = seed
         self.widen = widen
         self.rng = random.Random("%s-%d-%d" % (prop, seed, widen))
-        self.scratch = coqio.Scratch(prop)
+        self.scratch = scratch if scratch is not None else coqio.Scratch(prop)
         self.corpus_dir = os.path.join(VERIF, "corpus", prop)
         self.t0 = time.time()
 
@@ -242,9 +242,7 @@ def run_check(driver, ctx, t0):
         # concrete failing input before reporting.
         widened = True
         try:
-            wctx = Ctx(prop, tier, seed, widen=10)
-            wctx.scratch.close()
-            wctx.scratch = ctx.scratch
+            wctx = Ctx(prop, tier, seed, widen=10, scratch=ctx.scratch)
             o2 = driver.run(wctx)
             outcome.merge(o2)
             new, seen2 = split(outcome.failures)
